@@ -250,14 +250,17 @@ def direct_oracle(cases):
     bad, checked = [], 0
     for ci, (csv, auto, ops, outs) in enumerate(cases):
         db = []
+        cur_auto = auto
         for k, (o, x) in enumerate(zip(ops, outs)):
+            if o[0] == "reopen" and x[0] != "raise":
+                cur_auto = bool(o[1])                  # a reopen chooses auto_index anew
             if db is None:
                 if o[0] == "iter" and x[0] == "points":
                     db = [dict(p) for p in x[1]]
                 continue
             if o[0] == "index_valid":
                 # "any read leaves it valid": with auto_index on, right after a read that goes through the database's read path
-                if auto and k > 0 and x == ("bool", False) and ops[k - 1][0] in READ_OPS and outs[k - 1][0] != "raise":
+                if cur_auto and k > 0 and x == ("bool", False) and ops[k - 1][0] in READ_OPS and outs[k - 1][0] != "raise":
                     bad.append((ci, k, ("bool", True)))
                 continue
             try:
